@@ -2,12 +2,16 @@
 
 Proof: Props/C06.lean over Model/Retransmit.lean for arbitrary event lists (sends, ticks with any `now`, losses = absent
        events, acknowledgements / resets / responses at any point, cancellations, deadlines, NSTART queueing).
+       Props/C06Judge.lean: the specification's judge accepts every history of the extended model (Model/RetransmitKinds.lean: requests
+       of Conn.Do + Conn.Ping + Conn.WriteMessage of a confirmable non-request) - model_history_accepted, clause by clause.
 Tie:   T — Generated/Retransmit.lean: exhaustion comparator, retransmit addend, expiry-before-retransmit, removal by received
            MID, clone + deferred removal (AST of udp/client/conn.go), default transmission parameters (compiled values);
        X — real cc.Do calls on a udp/client.Conn (in-memory session recording every WriteMessage, synctest virtual clock):
            every loss pattern over the 1+MAX transmissions x peer reaction x tick placement for small MAX (exhaustive), seeded
            multi-request scenarios with NSTART queueing, cancellation, deadlines, resets, early/late/duplicate responses,
-           request mutation after send; transmission log and call results compared with the model and judged by the spec.
+           request mutation after send; pings and confirmable non-request writes (no NSTART slot); transmission log and call
+           results compared with the model and judged by the spec.  Judged only: refused first write, real sockets, requests
+           through Conn.WriteMessage / Conn.DoObserve with the block-wise layer on (seeded C06-U).
 """
 import glob
 import json
@@ -16,7 +20,7 @@ import random
 
 from . import common
 
-MODULES = ["CoapVerif.Props.C06", "CoapVerif.Props.C06Window"]
+MODULES = ["CoapVerif.Props.C06", "CoapVerif.Props.C06Window", "CoapVerif.Props.C06Judge"]
 GENERATED = ["Retransmit.lean"]
 REACTIONS = ["pig", "ack-resp-con", "ack-resp-non", "ack-only", "rst-resp", "resp-only", "pig-lost-then-pig", "none"]
 
@@ -180,6 +184,107 @@ def last_copy_lines(acks=(1000, 2 * 10**9)):
 
 
 KINDS = ["g", "g", "q", "d", "p1", "p7", "p40", "p300", "u3", "u64", "r9", "R40"]
+WKINDS = ["c3", "c0", "c40", "n9", "n300", "e"]
+
+
+def entrance_lines():
+    """The two other entrances of a confirmable REQUEST - Conn.WriteMessage of a request (`wreq`, one way) and Conn.DoObserve
+    (`obs`, what Client.Observe calls: registration GET through Conn.WriteMessage, then the first notification) - on a
+    connection with the block-wise layer ON (level bw: Conn.WriteMessage goes through BlockWise.WriteMessage, which
+    transmits a copy of its own) and, for comparison, without it.  The caller's context ends (cancel / deadline) between
+    the retransmissions: nothing may be sent afterwards and the call returns; or the acknowledgement / the first
+    notification gets back after j copies.  A request of Conn.Do queued behind it (NSTART 1) gets the slot afterwards."""
+    out = []
+    for lvl in ("bw", "bw", "hand"):
+        for A in (1000, 2 * 10**9):
+            for M in (1, 2, 4):
+                for what in ("wreq", "obs"):
+                    for j in range(0, M + 1):
+                        for end in ("cancel", "deadline", "ack", "answer"):
+                            if lvl == "hand" and (j not in (0, M) or A != 1000):
+                                continue
+                            kind = " p7" if what == "wreq" and j % 2 else (" g" if what == "wreq" else "")
+                            dl = "-" if end != "deadline" else str(j * A + A // 2 + 1)
+                            ops = ["cfg %d %d 1 %s" % (A, M, lvl), "%s 0 %s%s" % (what, dl, kind)]
+                            queued = (j + M) % 2 == 0
+                            if queued:
+                                ops.append("send 1 - g")
+                            for k in range(1, j + 1):
+                                ops += ["sleep %d" % (A + 1 if k == 1 else A), "tick 0"]
+                            if end == "cancel":
+                                ops.append("cancel 0")
+                            elif end == "deadline":
+                                ops.append("sleep %d" % (A // 2 + 2))
+                            elif end == "ack":
+                                ops.append("ack 0")
+                                if what == "obs":
+                                    ops += ["sleep 3", "resp 0 non 7"]
+                            else:
+                                ops.append("pig 0 7" if what == "obs" else "rst 0")
+                            for k in range(j + 1, M + 3):
+                                ops += ["sleep %d" % (A + 1), "tick 0"]
+                            if queued:
+                                ops += ["pig 1 9"]
+                            ops += ["cancel 0", "tick %d" % (10 * A)]
+                            out.append(" | ".join(ops))
+    return out
+
+
+def kinds_lines(mmax, acks=(1000, 2 * 10**9)):
+    """Confirmable messages that are not requests of Conn.Do: `ping` (Conn.Ping) and `wcon` (Conn.WriteMessage of a
+    confirmable response / notification).  One exchange; first copy that gets through = j (or none); the peer's reaction
+    (acknowledgement, reset, ACK-typed message with a payload); tick placement around every k*A; alone, or beside a request
+    that holds the only NSTART slot (neither may wait for it), or with a context deadline / a housekeeping clock ahead of it."""
+    out = []
+    for A in acks:
+        for M in range(0, mmax + 1):
+            for what in ("ping", "wcon c3", "wcon n40", "wcon e"):
+                for j in list(range(0, M + 1)) + [None]:
+                    for reaction in ("ack", "rst", "pig", "none"):
+                        if (j is None) != (reaction == "none"):
+                            continue
+                        for style in ("after", "boundary", "before-and-after"):
+                            for beside in ("alone", "slot-held", "deadline"):
+                                if beside != "alone" and style == "boundary":
+                                    continue
+                                ops = ["cfg %d %d 1" % (A, M)]
+                                if beside == "slot-held":
+                                    ops.append("send 1 - p7")
+                                f = what.split()
+                                dl = "-" if beside != "deadline" else str((M + 1) * A // 2 + 2)
+                                ops.append("%s 0 %s%s" % (f[0], dl, " " + f[1] if len(f) > 1 else ""))
+                                t = 0
+
+                                def sleep_to(target):
+                                    nonlocal t
+                                    if target > t:
+                                        ops.append("sleep %d" % (target - t))
+                                        t = target
+                                for k in range(0, M + 2):
+                                    if j is not None and k == j:
+                                        ops.append({"ack": "ack 0", "rst": "rst 0", "pig": "pig 0 5"}[reaction])
+                                    due = (k + 1) * A
+                                    if style == "after":
+                                        sleep_to(due + 1)
+                                        ops.append("tick 0")
+                                    elif style == "boundary":
+                                        sleep_to(due)
+                                        ops.append("tick 0")
+                                        sleep_to(due + 1)
+                                        ops.append("tick 0")
+                                    else:
+                                        sleep_to(due - 1)
+                                        ops.append("tick 0")
+                                        ops.append("tick 2")
+                                ops += ["tick 0", "ack 0", "rst 0", "cancel 0", "tick %d" % (10 * A)]
+                                if beside == "slot-held":
+                                    ops += ["pig 1 8"]
+                                out.append(" | ".join(ops))
+    # several pings / writes / requests outstanding together, all due in the same tick
+    for A in acks:
+        out.append("cfg %d 2 1 | send 0 - p7 | ping 1 - | wcon 2 - n40 | ping 3 - | send 4 - g | wcon 5 %d c3 | sleep %d | tick 0 | rst 3 | ack 2 | "
+                   "sleep %d | tick 0 | pig 0 5 | sleep %d | tick 0 | sleep %d | tick 0 | ack 1 | pig 4 6 | cancel 1" % (A, 2 * A, A + 1, A, A, A))
+    return out
 
 
 def burst_lines(rng, reps):
@@ -226,6 +331,7 @@ def gen_scenario(rng):
     ops = ["cfg %d %d %d" % (A, M, N)]
     cls = set(["nstart=%d" % min(N, 3), "max=%d" % M])
     nid = 0
+    nreq = 0
     ids = []
     t = 0
     deadlines = set()   # absolute; kept distinct (two contexts ending at the same instant race in the Go runtime)
@@ -234,6 +340,14 @@ def gen_scenario(rng):
         r = rng.random()
         if r < 0.18 and nid < 6:
             dl = "-"
+            what = "send"
+            w = rng.random()
+            if w < 0.14:
+                what = "ping"
+                cls.add("ping")
+            elif w < 0.28:
+                what = "wcon"
+                cls.add("confirmable-non-request-write")
             if rng.random() < 0.3:
                 d = rng.choice([A + 5, 3 * A + 7, 10 * A + 3, 1]) + nid
                 while t + d in deadlines:
@@ -241,10 +355,16 @@ def gen_scenario(rng):
                 deadlines.add(t + d)
                 dl = str(d)
                 cls.add("deadline")
-            ops.append("send %d %s %s" % (nid, dl, rng.choice(KINDS)))
+            if what == "send":
+                ops.append("send %d %s %s" % (nid, dl, rng.choice(KINDS)))
+                nreq += 1
+            elif what == "ping":
+                ops.append("ping %d %s" % (nid, dl))
+            else:
+                ops.append("wcon %d %s %s" % (nid, dl, rng.choice(WKINDS)))
             ids.append(nid)
             nid += 1
-            if len(ids) > N and N > 0:
+            if nreq > N and N > 0:
                 cls.add("queued-behind-nstart")
         elif r < 0.40:
             d = rng.choice([A - 1, A, A + 1, 1, A // 2, 2 * A + 1, rng.randrange(1, 3 * A + 2)])
@@ -391,6 +511,21 @@ def explore(ctx, art):
                 lines.append(" | ".join(steps))
                 lines.append(" | ".join(["cfg %d %d %d %s" % (a, m, n, lvl), "send 2 - g", "ack 2", "sendf 0 %d %s" % (50 * a, kind), "sleep %d" % (a + 1),
                                          "tick 0", "resp 2 con 5", "sleep %d" % (2 * a), "tick 0", "send 1 - g", "sleep %d" % (a + 1), "tick 0", "pig 1 9"]))
+    kl = kinds_lines(3 if thorough else 2, acks=(1000, 2 * 10**9, 1) if thorough else (1000, 2 * 10**9))
+    kl += [with_level(l, "opt") for l in kl[::9]] + [with_level(l, "dtlssrv") for l in kl[::9] if "send" not in l]
+    lines += kl
+    ctx.count("ping / confirmable non-request write (no NSTART slot): exhaustive loss patterns x reactions x tick placements", len(kl))
+    el = entrance_lines()
+    lines += el
+    ctx.count("request through Conn.WriteMessage / Conn.DoObserve, block-wise layer on: context ends between retransmissions", len(el))
+    # finding candidate (not judged, see docs/notes/C06.md): on the Observe entrance a notification that arrives while the
+    # registration request is still unacknowledged does not wake the writer (nothing like the F21 repair of doInternal)
+    probe = "cfg 1000 2 1 bw | obs 0 - | resp 0 non 8 | sleep 1001 | tick 0 | ack 0"
+    pr = common.run_test_harness(ctx, art["test"], "TestC06", [probe], tag="probe", timeout=120)
+    if pr:
+        ctx.count("observe-entrance probe: notification before the ACK %s" % (
+            "does not complete the call, the request is retransmitted (finding candidate O-C06-3, not judged)"
+            if "tx=0.1001" in pr[0] else "completes the call"))
     ul = udpsrv_lines(3 if thorough else 1)
     lines += ul
     ctx.count("level-udpsrv (server-issued request on a Server.NewConn connection, real sockets)", len(ul))
